@@ -186,7 +186,9 @@ class ComputationCache:
             self._fitness_cache,
             self._fitness_functions,
         )
-        return sum(self._fitness_cache.values())
+        # Only the configured functions count; the cache may also hold values of
+        # other functions that were queried via get_fitness_for.
+        return sum(self._fitness_cache[func] for func in dict.fromkeys(self._fitness_functions))
 
     def get_fitness_for(self, fitness_function: FitnessFunction) -> float:
         """Returns the fitness values of a specific fitness function.
@@ -242,7 +244,11 @@ class ComputationCache:
             self._coverage_cache,
             self._coverage_functions,
         )
-        return statistics.mean(self._coverage_cache.values())
+        # Only the configured functions count; the cache may also hold values of
+        # other functions that were queried via get_coverage_for.
+        return statistics.mean(
+            self._coverage_cache[func] for func in dict.fromkeys(self._coverage_functions)
+        )
 
     def get_coverage_for(self, coverage_function: CoverageFunction) -> float:
         """Provides the coverage value for a certain coverage function.
